@@ -221,7 +221,7 @@ struct cframe {
     size_t n;
     char name[48];
 };
-static struct cframe corpus[256];
+static struct cframe corpus[384];
 static int ncorpus;
 
 static void
@@ -233,7 +233,7 @@ make_corpus(void)
     for (unsigned ti = 0; ti < 5; ++ti)
         for (int w16 = 0; w16 < 2; ++w16)
             for (unsigned li = 0; li < 5; ++li)
-                for (int content = 0; content < 2; ++content) {
+                for (int content = 0; content < 3; ++content) {
                     const unsigned t = types[ti];
                     const bool haspl = (t == RT_READ_RESP || t == RT_WRITE_REQ || t == RT_WRITE_RESP);
                     if (t == RT_META && (w16 || li || content))
@@ -250,7 +250,7 @@ make_corpus(void)
                     unsigned char pl[16];
                     const size_t plen = haspl ? lens[li] * (w16 ? 2u : 1u) : 0;
                     for (size_t i = 0; i < plen; ++i)
-                        pl[i] = content ? (unsigned char)(0xc0 + 0x1b * i) : (unsigned char)(i + 1);
+                        pl[i] = content == 2 ? 0 /* all-zero payload: its CRC-16/ARC is 0000 */ : content ? (unsigned char)(0xc0 + 0x1b * i) : (unsigned char)(i + 1);
                     struct rframe f;
                     memset(&f, 0, sizeof f);
                     f.type = t;
@@ -411,12 +411,18 @@ part2(void)
                     for (unsigned meta = 0; meta < 16 && ok; ++meta) {
                         if (versions[vi] != 0 && meta > 1)
                             continue;
-                        for (uint32_t bs = 0; bs <= 2 && ok; ++bs)
+                        for (unsigned bi = 0; bi < 8 && ok; ++bi)
                             for (int dl = -1; dl <= 1 && ok; ++dl)
                                 for (int brk = 0; brk < 4 && ok; ++brk) {
+                                    /* block sizes 0..2 and sizes whose octet count wraps in 32 bits */
+                                    static const uint32_t BS[8] = { 0, 1, 2, 0x80000000u, 0x80000001u, 0x80000002u, 0xffffffffu, 0x7fffffffu };
+                                    const uint32_t bs = BS[bi];
                                     const size_t ws = (opt & RO_W16) ? 2 : 1;
                                     const bool declares_payload = !(type == RT_READ_REQ || type == RT_META);
-                                    const long want = declares_payload ? (long)(bs * ws) : 0;
+                                    /* for the huge sizes the payload carries what a 32-bit product would announce */
+                                    const long want = declares_payload ? (long)(uint32_t)(bs * (uint32_t)ws) : 0;
+                                    if (bi >= 3 && (want > 8 || !declares_payload))
+                                        continue;
                                     const long plen = want + dl;
                                     if (plen < 0)
                                         continue;
@@ -439,11 +445,11 @@ part2(void)
                                     f.payload = pl;
                                     f.plen = (size_t)plen;
                                     const size_t n = rr_build(raw, &f, brk & 1, (brk & 2) != 0);
-                                    snprintf(fd, sizeof fd, "meta=%u bsize=%u payload=%ld octets (declared %ld) hdcrc=%s plcrc=%s", meta, bs, plen, want,
+                                    snprintf(fd, sizeof fd, "meta=%u bsize=%u payload=%ld octets (32-bit product %ld) hdcrc=%s plcrc=%s", meta, bs, plen, want,
                                              (brk & 1) ? "wrong" : "right", (brk & 2) ? "wrong" : "right");
                                     ok = run_frame(tcp, raw, n, false, fd);
                                     /* header cut short of its declared checksum words */
-                                    if (ok && dl == 0 && brk == 0 && plen == 0 && bs == 0)
+                                    if (ok && dl == 0 && brk == 0 && plen == 0 && bi == 0)
                                         for (size_t cut = 10; cut < n && ok; ++cut) {
                                             snprintf(fd, sizeof fd, "meta=%u header cut to %zu octets", meta, cut);
                                             ok = run_frame(tcp, raw, cut, false, fd);
@@ -478,7 +484,7 @@ main(int argc, char **argv)
     if (mc.only < 0 && n_skipped_valid > 0)
         mc_cap("%ld corrupted frames were valid by the reference itself (undetectable, skipped)", n_skipped_valid);
     char bound[300];
-    snprintf(bound, sizeof bound, "%d corpus frames x (all 1-bit flips, all 2-bit flips in octets>=2, all bursts of span 2..%s at every bit offset >= 16 in transmission order, all truncations, 9 extensions); generated: 2 transports x 3 versions x 16 types x 16 option patterns x 16 meta x block size 0..2 x payload length {n-1,n,n+1} x checksums right/wrong x header cuts",
+    snprintf(bound, sizeof bound, "%d corpus frames x (all 1-bit flips, all 2-bit flips in octets>=2, all bursts of span 2..%s at every bit offset >= 16 in transmission order, all truncations, 9 extensions); generated: 2 transports x 3 versions x 16 types x 16 option patterns x 16 meta x block size {0,1,2, sizes wrapping in 32 bits} x payload length {n-1,n,n+1} x checksums right/wrong x header cuts",
              ncorpus, g_th ? "16 (every pattern)" : "9 (every pattern) and solid runs up to 16");
     mc_finish(true, bound);
     return 0;
